@@ -54,9 +54,14 @@ def unescape(body):
     return "".join(out)
 
 
-def lex(src):
+def lex(src, stop_after_item=False):
+    """tokenise [src]; with [stop_after_item] stop right after the first balanced `{ .. }` block (one fn item), so that
+    later items of the file the lexer has no rule for (attributes, lifetimes, `?` ...) are never looked at"""
     pos, toks = 0, []
+    depth, opened = 0, False
     while pos < len(src):
+        if stop_after_item and opened and depth == 0:
+            break
         m = TOK.match(src, pos)
         if not m:
             raise Rs2vError("cannot tokenise at: %r" % src[pos:pos + 30])
@@ -75,6 +80,11 @@ def lex(src):
             toks.append(("id", t))
         else:
             toks.append(("op", t))
+            if t == "{":
+                depth += 1
+                opened = True
+            elif t == "}":
+                depth -= 1
     toks.append(("eof", None))
     return toks
 
@@ -366,7 +376,7 @@ def parse_fn(src, name):
     m = re.search(r"(?:pub(?:\([a-z]+\))?\s+)?fn\s+%s\s*\(" % re.escape(name), src)
     if not m:
         raise Rs2vError("fn %s not found" % name)
-    p = P(lex(src[m.start():]))
+    p = P(lex(src[m.start():], stop_after_item=True))
     n, params, body = p.fn()
     return params, body
 
@@ -851,3 +861,1566 @@ class Fn:
 def name_call(name, cfg):
     a = cfg.get("fn_args", "")
     return "(%s %s)" % (name, a) if a else name
+
+
+# ---------------------------------------------------------------------------------------------
+# ADDITIVE EXTENSION (builder B9): methods of `impl` blocks working on HashMap / Vec state.
+#
+#   MethodP / parse_method   parse `fn f(&self | &mut self | self, ..)` inside `impl T { .. }`
+#   FnM(Fn)                  executor for such methods:
+#     * struct fields `self.f` are components of the state (env keys "self.f"); HashMap operations become
+#       gmap terms: contains_key -> map_has, get -> !!, insert -> <[k:=v]>, remove -> delete, and
+#       `match m.remove(k) {..}` scrutinises `m !! k` with the map being `delete k m` in both arms;
+#     * value-producing blocks: `let x = match OPT { Some(v) => .., None => .. };` / `let x = if ..` with
+#       `let`s inside the arms (emitted as a Coq `let x_N := .. in`);
+#     * `match` on an Option in statement or tail position, arms are blocks;
+#     * `for x in &vec | vec.iter() | vec | map.keys()`: the body becomes a separate definition
+#       state -> item -> lstep state result (Rs2vMapLib.for_each_ret); `return e` inside the body is
+#       `LRet <function result>`; the state is the mutable receiver OR the one mutable local in scope;
+#       every Coq variable in scope (function parameters, pattern / let variables) is a parameter of the body;
+#     * block scoping: a `let` inside a block does not leak into the code after the block;
+#     * the function result is built by cfg['result'](fn, expr, env) so that a `&mut self` method can return
+#       the receiver as it is AT THAT POINT together with the value (an early `return Err(..)` after a
+#       mutation is therefore visible in the translation).
+#   Everything not understood raises Rs2vError.  Nothing above this line is changed by the extension.
+class MethodP(P):
+    receiver = None
+
+    def fn(self):
+        """fn name([&[mut] self | [mut] self,] params) [-> type] block"""
+        while not self.at("id", "fn"):
+            if self.at("eof"):
+                raise Rs2vError("eof looking for fn")
+            self.i += 1
+        self.eat("id", "fn")
+        name = self.eat("id")
+        if self.opt("op", "<"):
+            raise Rs2vError("generic fn %s" % name)
+        self.eat("op", "(")
+        if self.at("op", "&") and (self.peek(1) == ("id", "self") or
+                                   (self.peek(1) == ("id", "mut") and self.peek(2) == ("id", "self"))):
+            self.i += 1
+            self.receiver = "mut" if self.opt("id", "mut") else "ref"
+            self.eat("id", "self")
+            self.opt("op", ",")
+        elif self.at("id", "self") or (self.at("id", "mut") and self.peek(1) == ("id", "self")):
+            self.opt("id", "mut")
+            self.eat("id", "self")
+            self.receiver = "own"
+            self.opt("op", ",")
+        params = []
+        while not self.at("op", ")"):
+            self.opt("id", "mut")
+            pn = self.eat("id")
+            self.eat("op", ":")
+            mut_ref = self.at("op", "&") and self.peek(1) == ("id", "mut")
+            self.skip_type()
+            params.append((pn, mut_ref))
+            self.opt("op", ",")
+        self.eat("op", ")")
+        if self.opt("op", "->"):
+            self.skip_type()
+        return name, params, self.block()
+
+
+def impl_block(src, type_name):
+    """the text between the braces of the inherent `impl type_name { .. }` (comments and literals respected)"""
+    m = re.search(r"^\s*impl\s+%s\s*\{" % re.escape(type_name), src, re.M)
+    if not m:
+        raise Rs2vError("impl %s not found" % type_name)
+    i, depth, n = m.end() - 1, 0, len(src)
+    start = i
+    while i < n:
+        c = src[i]
+        if src.startswith("//", i):
+            j = src.find("\n", i)
+            i = n if j < 0 else j
+            continue
+        if src.startswith("/*", i):
+            j = src.find("*/", i)
+            if j < 0:
+                raise Rs2vError("unterminated comment")
+            i = j + 2
+            continue
+        if c == '"':
+            mm = re.compile(r'"(?:\\.|[^"\\])*"', re.S).match(src, i)
+            if not mm:
+                raise Rs2vError("unterminated string")
+            i = mm.end()
+            continue
+        if c == "'":
+            mm = re.compile(r"'(?:\\.|[^'\\])'").match(src, i)
+            if mm:
+                i = mm.end()
+                continue
+        if c == "{":
+            depth += 1
+        elif c == "}":
+            depth -= 1
+            if depth == 0:
+                return src[start + 1:i]
+        i += 1
+    raise Rs2vError("impl %s unbalanced" % type_name)
+
+
+def parse_method(src, type_name, name):
+    """-> (receiver in {None,'ref','mut','own'}, [(param, is_mut_ref)], body block) of `fn name` in `impl type_name`"""
+    body = impl_block(src, type_name)
+    ms = list(re.finditer(r"\bfn\s+%s\s*\(" % re.escape(name), body))
+    if len(ms) != 1:
+        raise Rs2vError("fn %s: %d definitions in impl %s" % (name, len(ms), type_name))
+    p = MethodP(lex(body[ms[0].start():], stop_after_item=True))
+    n, params, blk = p.fn()
+    return p.receiver, params, blk
+
+
+META = ("%decl", "%bound")
+
+
+class FnM(Fn):
+    """cfg keys used on top of Fn's (all optional unless noted):
+      coq_name      (required) prefix of the generated loop-body definitions
+      fn_binders    '(self : reg) (x : name)'  binders of the generated function, repeated on every loop body
+      fn_args       'self x'
+      result_type   coq type of the function result (the R of lstep S R)
+      result        f(fn, expr, env) -> coq term of the function result for the Rust value `expr` (default: ex)
+      mut_self      True when the receiver is `&mut self`
+      self_state    dict(type='reg', fields={'self.commands': '(cmds %s)', ..}, pack=f(fn, env) -> term)
+      maps          {map type: dict(key=type, val=type)}
+      lists         {list type: element type}
+      coq_types     {type: coq type text}
+      locals        {rust name: type} of the `let mut` locals
+      helpers       {method name: dict(coq=, ret=)}   other translated `&self` methods callable as self.m(..)
+      map_put       f(fn, map type, expr, env) -> stored term           (default: ex)
+      map_got       f(fn, map type, key term, coq var) -> (type, term)   what a value read from the map is
+      sort          '(merge_sort name_le %s)'   translation of v.sort()
+    """
+
+    def __init__(self, cfg):
+        super().__init__(cfg)
+        self.nloops = 0
+
+    # ---- scoping helpers
+    def meta(self, env, key, default):
+        return env[key][1] if key in env else default
+
+    def enter(self, env):
+        e = dict(env)
+        e["%decl"] = ("meta", frozenset())
+        return e
+
+    def leave(self, outer, inner):
+        """the environment after a block: names the block declared itself are restored"""
+        declared = self.meta(inner, "%decl", frozenset())
+        out = {}
+        for n in outer:
+            if n in META:
+                out[n] = outer[n]
+            elif n in declared:
+                out[n] = outer[n]
+            else:
+                out[n] = inner.get(n, outer[n])
+        return out
+
+    def declare(self, env, name, coqvar=None, coqtype=None):
+        env["%decl"] = ("meta", self.meta(env, "%decl", frozenset()) | {name})
+        if coqvar is not None:
+            env["%bound"] = ("meta", self.meta(env, "%bound", ()) + ((coqvar, coqtype),))
+        return env
+
+    def coq_type(self, t):
+        ct = self.cfg.get("coq_types", {}).get(t)
+        if ct is None:
+            raise Rs2vError("no coq type for %s" % (t,))
+        return ct
+
+    def is_self(self, e):
+        return e == ("path", ["self"])
+
+    def self_term(self, env):
+        return self.cfg["self_state"]["pack"](self, env)
+
+    # ---- types
+    def type_of(self, e, env):
+        k = e[0]
+        if k == "field" and self.is_self(e[1]):
+            key = "self." + e[2]
+            if key in env:
+                return env[key][0]
+            raise Rs2vError("unknown field %s" % key)
+        if k == "path" and e[1] == ["None"]:
+            return "opt:?"
+        if k == "call" and e[1] == ("path", ["Some"]) and len(e[2]) == 1:
+            return "opt:%s" % self.type_of(e[2][0], env)
+        if k == "mcall":
+            recv, m = e[1], e[2]
+            if self.is_self(recv) and m in self.cfg.get("helpers", {}):
+                return self.cfg["helpers"][m]["ret"]
+            if m not in self.cfg.get("method_types", {}):
+                if m in ("contains_key", "is_some", "is_none"):
+                    return Ty.BOOL
+                if m == "get":
+                    t = self.type_of(recv, env)
+                    if t in self.cfg.get("maps", {}):
+                        return "opt:%s" % self.cfg["maps"][t]["val"]
+        if k in ("block", "match", "if", "iflet"):
+            return self.value_of(e, env)[0]
+        return super().type_of(e, env)
+
+    # ---- expressions
+    def ex(self, e, env):
+        k = e[0]
+        if k == "path" and len(e[1]) == 1 and e[1][0] in env and isinstance(env[e[1][0]][1], tuple):
+            return "(" + ", ".join(env[e[1][0]][1]) + ")"
+        if k == "path" and e[1] == ["None"]:
+            return "None"
+        if k == "field" and self.is_self(e[1]):
+            key = "self." + e[2]
+            if key in env:
+                return env[key][1]
+            raise Rs2vError("unknown field %s" % key)
+        if k == "call" and e[1] == ("path", ["Some"]) and len(e[2]) == 1:
+            return "(Some %s)" % self.ex(e[2][0], env)
+        if k == "bin" and e[1] in ("==", "!="):
+            tl, tr = self.type_of(e[2], env), self.type_of(e[3], env)
+            if str(tl).startswith("opt:") or str(tr).startswith("opt:"):
+                if "opt:?" not in (tl, tr) and tl != tr:
+                    raise Rs2vError("== between %s and %s" % (tl, tr))
+                s = "(bool_decide (%s = %s))" % (self.ex(e[2], env), self.ex(e[3], env))
+                return s if e[1] == "==" else "(negb %s)" % s
+        if k == "mcall":
+            recv, m, args = e[1], e[2], e[3]
+            if self.is_self(recv) and m in self.cfg.get("helpers", {}):
+                h = self.cfg["helpers"][m]
+                return "(%s %s)" % (h["coq"], " ".join([self.self_term(env)] + [self.ex(a, env) for a in args]))
+            if m not in self.cfg.get("methods", {}):
+                if m in ("contains_key", "get") and len(args) == 1:
+                    t = self.type_of(recv, env)
+                    if t in self.cfg.get("maps", {}):
+                        kt = self.type_of(args[0], env)
+                        if kt != self.cfg["maps"][t]["key"]:
+                            raise Rs2vError("%s key of type %s" % (m, kt))
+                        f = "(map_has %s %s)" if m == "contains_key" else "(%s !! %s)"
+                        return f % (self.ex(recv, env), self.ex(args[0], env))
+                if m in ("is_some", "is_none") and not args:
+                    t = self.type_of(recv, env)
+                    if str(t).startswith("opt:"):
+                        s = "(opt_is_some %s)" % self.ex(recv, env)
+                        return s if m == "is_some" else "(negb %s)" % s
+        if k in ("block", "match", "if", "iflet"):
+            return self.value_of(e, env)[1]
+        return super().ex(e, env)
+
+    # ---- value-producing blocks / matches / ifs (no effects on the state, no return)
+    def value_of(self, e, env):
+        """-> (type, coq term) of an expression that may be a block, an `if` or a `match` on an Option"""
+        if e[0] == "block":
+            got = []
+
+            def k(env2, v):
+                if v is None:
+                    raise Rs2vError("block used as a value has no tail expression")
+                got.append(self.type_of(v, env2))
+                if self.state_sig(env2) != self.state_sig(env):
+                    raise Rs2vError("state change inside a value block")
+                return self.ex(v, env2)
+            term = self.run(e[1], e[2], self.enter(env), k, {"value": True})
+            if not got or any(g != got[0] for g in got):
+                raise Rs2vError("value block of several types %r" % (got,))
+            return got[0], term
+        if e[0] == "if":
+            if e[3] is None:
+                raise Rs2vError("`if` without else used as a value")
+            c = self.ex(e[1], env)
+            ta, a = self.value_of(e[2], env)
+            tb, b = self.value_of(e[3], env)
+            if ta != tb:
+                raise Rs2vError("if arms of types %s / %s" % (ta, tb))
+            return ta, "(if %s then %s else %s)" % (c, a, b)
+        if e[0] == "iflet":
+            e = self.iflet_as_match(e)
+        if e[0] == "match":
+            types = []
+
+            def arm(body, env2, _env1):
+                t, term = self.value_of(body, env2)
+                types.append(t)
+                return term
+            env_after, text = self.option_match(e, env, arm)
+            if self.state_sig(env_after) != self.state_sig(env):
+                raise Rs2vError("effectful scrutinee in a value match")
+            if any(t != types[0] for t in types):
+                raise Rs2vError("match arms of types %r" % (types,))
+            return types[0], "(" + text + ")"
+        return self.type_of(e, env), self.ex(e, env)
+
+    def state_sig(self, env):
+        return tuple(sorted((n, str(v[1])) for n, v in env.items() if n.startswith("self.") or n in self.cfg.get("locals", {})))
+
+    def scrutinee(self, e, env):
+        """-> (element type, coq term of the Option, env after evaluating it, key term or None)"""
+        if e[0] == "mcall" and e[2] in ("get", "remove") and len(e[3]) == 1 and e[1][0] == "field" and self.is_self(e[1][1]):
+            key = "self." + e[1][2]
+            if key not in env or env[key][0] not in self.cfg.get("maps", {}):
+                raise Rs2vError("match on %s of %s" % (e[2], key))
+            mt, mterm = env[key]
+            kt = self.type_of(e[3][0], env)
+            if kt != self.cfg["maps"][mt]["key"]:
+                raise Rs2vError("%s key of type %s" % (e[2], kt))
+            kterm = self.ex(e[3][0], env)
+            env2 = dict(env)
+            if e[2] == "remove":
+                if not self.cfg.get("mut_self"):
+                    raise Rs2vError("remove on an immutable receiver")
+                env2[key] = (mt, "(delete %s %s)" % (kterm, mterm))
+            return ("mapval", mt), "%s !! %s" % (mterm, kterm), env2, kterm
+        t = self.type_of(e, env)
+        if str(t).startswith("opt:") and t != "opt:?":
+            return t[4:], self.ex(e, env), env, None
+        raise Rs2vError("match scrutinee %r" % (e,))
+
+    def option_match(self, e, env, arm):
+        """`match OPT { Some(v) => A, None => B }` (either order, `_` for the remaining case);
+        arm(body, env in the arm, env after the scrutinee) -> coq text.  -> (env after the scrutinee, text)"""
+        et, sterm, env1, kterm = self.scrutinee(e[1], env)
+        some = none = None
+        for pat, body in e[2]:
+            if pat[0] == "ctor" and pat[1] == ["Some"] and len(pat[2]) == 1 and some is None:
+                some = (pat[2][0], body)
+            elif pat[0] == "ctor" and pat[1] == ["None"] and not pat[2] and none is None:
+                none = body
+            elif pat[0] == "wild" and (some is None) != (none is None):
+                if some is None:
+                    some = (None, body)
+                else:
+                    none = body
+            else:
+                raise Rs2vError("match pattern %r" % (pat,))
+        if some is None or none is None:
+            raise Rs2vError("match on an Option needs a Some and a None arm")
+        v = self.newvar(some[0] or "w")
+        env2 = self.enter(env1)
+        if isinstance(et, tuple):
+            vt, vterm = self.cfg.get("map_got", lambda fn, mt, k, var: (fn.cfg["maps"][mt]["val"], var))(self, et[1], kterm, v)
+            ctype = self.coq_type(("stored", et[1]))
+        else:
+            vt, vterm = et, v
+            ctype = self.coq_type(et)
+        if some[0]:
+            env2[some[0]] = (vt, vterm)
+            self.declare(env2, some[0])
+        self.declare(env2, "%var", v, ctype)
+        a = arm(some[1], env2, env1)
+        b = arm(none, self.enter(env1), env1)
+        return env1, "match %s with\n| Some %s =>\n%s\n| None =>\n%s\nend" % (sterm, v, a, b)
+
+    # ---- statements
+    def bind(self, name, e, env, cont, ctx):
+        if name in self.cfg.get("locals", {}) and name in env:
+            raise Rs2vError("mutable local %s declared twice" % name)
+        if e[0] in ("match", "if", "block", "iflet"):
+            t, term = self.value_of(e, env)
+            v = self.newvar(name)
+            env2 = dict(env)
+            env2[name] = (t, v)
+            self.declare(env2, name, v, self.coq_type(t))
+            return "let %s := %s in\n%s" % (v, term, cont(env2))
+        return super().bind(name, e, env, lambda env2, _v=None: cont(self.declare(dict(env2), name)), ctx)
+
+    def effect(self, e, env, cont, ctx):
+        k = e[0]
+        if k == "block":
+            return self.run(e[1], e[2], self.enter(env), lambda env2, _v=None: cont(self.leave(env, env2)), ctx)
+        if k == "mcall" and e[1][0] == "field" and self.is_self(e[1][1]):
+            key, m, args = "self." + e[1][2], e[2], e[3]
+            if key in env and env[key][0] in self.cfg.get("maps", {}) and m in ("insert", "remove"):
+                if ctx.get("value"):
+                    raise Rs2vError("state change inside a value block")
+                if not self.cfg.get("mut_self"):
+                    raise Rs2vError("%s on an immutable receiver" % m)
+                mt, mterm = env[key]
+                if self.type_of(args[0], env) != self.cfg["maps"][mt]["key"]:
+                    raise Rs2vError("%s key type" % m)
+                kterm = self.ex(args[0], env)
+                env2 = dict(env)
+                if m == "insert" and len(args) == 2:
+                    if self.type_of(args[1], env) != self.cfg["maps"][mt]["val"]:
+                        raise Rs2vError("insert value type")
+                    put = self.cfg.get("map_put", lambda fn, mt_, x, env_: fn.ex(x, env_))
+                    env2[key] = (mt, "(<[%s := %s]> %s)" % (kterm, put(self, mt, args[1], env), mterm))
+                    return cont(env2)
+                if m == "remove" and len(args) == 1:
+                    env2[key] = (mt, "(delete %s %s)" % (kterm, mterm))
+                    return cont(env2)
+            raise Rs2vError("effect %s.%s" % (key, m))
+        if k == "mcall" and e[1][0] == "path" and len(e[1][1]) == 1 and e[1][1][0] in env \
+                and env[e[1][1][0]][0] in self.cfg.get("lists", {}) and e[1][1][0] in self.cfg.get("locals", {}):
+            n, m, args = e[1][1][0], e[2], e[3]
+            t, cur = env[n]
+            env2 = dict(env)
+            if m == "push" and len(args) == 1:
+                if self.type_of(args[0], env) != self.cfg["lists"][t]:
+                    raise Rs2vError("push of a %s" % self.type_of(args[0], env))
+                env2[n] = (t, "(%s ++ [%s])" % (cur, self.ex(args[0], env)))
+                return cont(env2)
+            if m == "sort" and not args and self.cfg.get("sort"):
+                env2[n] = (t, self.cfg["sort"] % cur)
+                return cont(env2)
+            raise Rs2vError("method %s.%s" % (n, m))
+        return super().effect(e, env, cont, ctx)
+
+    def cond(self, e, env, cont, ctx):
+        c = self.ex(e[1], env)
+        a = self.run(e[2][1], e[2][2], self.enter(env), lambda env2, _v=None: cont(self.leave(env, env2)), ctx)
+        if e[3] is None:
+            b = cont(env)
+        else:
+            b = self.run(e[3][1], e[3][2], self.enter(env), lambda env2, _v=None: cont(self.leave(env, env2)), ctx)
+        return "if %s then\n%s\nelse\n%s" % (c, a, b)
+
+    def iflet_as_match(self, e):
+        """`if let Some(v) = OPT { A } [else { B }]` is `match OPT { Some(v) => { A }, _ => { B } }`"""
+        pat, scrut, blk, els = e[1], e[2], e[3], e[4]
+        if pat[0] != "ctor" or pat[1] != ["Some"] or len(pat[2]) != 1:
+            raise Rs2vError("if let pattern %r" % (pat,))
+        return ("match", scrut, [(pat, blk), (("wild",), els if els is not None else ("block", [], None))])
+
+    def iflet(self, e, env, cont, ctx):
+        return self.match(self.iflet_as_match(e), env, cont, ctx)
+
+    def match(self, e, env, cont, ctx):
+        """statement position: the arms' values are dropped"""
+        def arm(body, env2, env1):
+            return self.tail(body, env2, lambda env3, _v=None: cont(self.leave(env1, env3)), ctx)
+        return self.option_match(e, env, arm)[1]
+
+    def tail(self, e, env, k, ctx):
+        if e[0] == "iflet":
+            e = self.iflet_as_match(e)
+        if e[0] == "match":
+            return self.option_match(e, env, lambda body, env2, _env1: self.tail(body, env2, k, ctx))[1]
+        if e[0] == "mcall" and self.is_unit_effect(e, env):
+            return self.effect(e, env, lambda env2, _v=None: k(env2, None), ctx)
+        return super().tail(e, env, k, ctx)
+
+    def is_unit_effect(self, e, env):
+        if e[0] == "mcall" and e[1][0] == "field" and self.is_self(e[1][1]) and e[2] == "insert":
+            return True
+        if e[0] == "mcall" and e[1][0] == "path" and len(e[1][1]) == 1 and e[1][1][0] in env \
+                and env[e[1][1][0]][0] in self.cfg.get("lists", {}) and e[2] in ("push", "sort"):
+            return True
+        return super().is_unit_effect(e, env)
+
+    def result(self, e, env):
+        f = self.cfg.get("result")
+        return f(self, e, env) if f else self.ex(e, env)
+
+    def ret(self, e, env, ctx):
+        if ctx.get("value"):
+            raise Rs2vError("return inside a value block")
+        if e is None:
+            raise Rs2vError("return without a value")
+        v = self.result(e, env)
+        return "LRet %s" % v if ctx.get("loop") else v
+
+    def final(self, v, env):
+        if v is None:
+            raise Rs2vError("function ends without a value")
+        return self.result(v, env)
+
+    # ---- loops over a Vec / the keys of a map, with early return
+    def loop_state(self, env):
+        """-> (coq type, pack(env) -> term, unpack(env, state var) -> env)"""
+        muts = [n for n in self.cfg.get("locals", {}) if n in env]
+        if self.cfg.get("mut_self") and muts:
+            raise Rs2vError("loop state with several components (receiver and %s)" % muts)
+        if len(muts) > 1:
+            raise Rs2vError("loop state with several components %s" % muts)
+        if self.cfg.get("mut_self"):
+            ss = self.cfg["self_state"]
+
+            def unpack(env_, sv):
+                env2 = dict(env_)
+                for key, proj in ss["fields"].items():
+                    env2[key] = (env_[key][0], proj % sv)
+                return env2
+            return ss["type"], lambda env_: self.self_term(env_), unpack
+        if muts:
+            n = muts[0]
+
+            def unpack1(env_, sv):
+                env2 = dict(env_)
+                env2[n] = (env_[n][0], sv)
+                return env2
+            return self.coq_type(env[n][0]), lambda env_: env_[n][1], unpack1
+        return "unit", lambda env_: "tt", lambda env_, sv: dict(env_)
+
+    def loop(self, s, env, cont, ctx):
+        if ctx.get("loop"):
+            raise Rs2vError("nested loop")
+        if ctx.get("value"):
+            raise Rs2vError("loop inside a value block")
+        pat, it, body = s[1], s[2], s[3]
+        src = it[1] if it[0] == "ref" else it
+        if src[0] == "mcall" and src[2] == "iter" and not src[3]:
+            src = src[1]
+        if src[0] == "mcall" and src[2] == "keys" and not src[3] and self.type_of(src[1], env) in self.cfg.get("maps", {}):
+            et = self.cfg["maps"][self.type_of(src[1], env)]["key"]
+            lterm = "(map_keys %s)" % self.ex(src[1], env)
+        else:
+            lt = self.type_of(src, env)
+            if lt not in self.cfg.get("lists", {}):
+                raise Rs2vError("loop iterator %r" % (it,))
+            et = self.cfg["lists"][lt]
+            lterm = self.ex(src, env)
+        self.nloops += 1
+        name = "%s_loop%d" % (self.cfg["coq_name"], self.nloops)
+        stype, pack, unpack = self.loop_state(env)
+        bound = self.meta(env, "%bound", ())
+        seen, binders, args = set(), [], []
+        for v, ct in bound:            # a later binder of the same name shadows (names are fresh, so none)
+            if v in seen:
+                raise Rs2vError("coq variable %s bound twice" % v)
+            seen.add(v)
+            binders.append("(%s : %s)" % (v, ct))
+            args.append(v)
+        item = self.newvar(pat)
+        benv = self.enter(unpack(env, "st"))
+        benv[pat] = (et, item)
+        self.declare(benv, pat, item, self.coq_type(et))
+        self.declare(benv, "%st", "st", stype)
+        body_term = self.run(body[1], body[2], benv, lambda env2, v=None: "LCont %s" % pack(env2), {"loop": True})
+        rtype = self.cfg["result_type"]
+        self.loops.append((name, "Definition %s %s (st : %s) (%s : %s) : lstep (%s) (%s) :=\n%s.\n" % (
+            name, " ".join([self.cfg.get("fn_binders", "")] + binders), stype, item, self.coq_type(et), stype, rtype,
+            body_term)))
+        sv = self.newvar("st")
+        env_after = unpack(env, sv)
+        self.declare(env_after, "%st", sv, stype)
+        env_after["%decl"] = env.get("%decl", ("meta", frozenset()))
+        call = "(%s)" % " ".join([name] + ([self.cfg["fn_args"]] if self.cfg.get("fn_args") else []) + args)
+        return "match for_each_ret %s %s %s with\n| LRet r => r\n| LCont %s =>\n%s\nend" % (
+            call, lterm, pack(env), sv, cont(env_after))
+
+    def function(self, params, body):
+        env = {}
+        for pn, _ in params:
+            if pn in self.cfg["params"]:
+                env[pn] = self.cfg["params"][pn]
+        for key, (t, term) in self.cfg.get("self_fields", {}).items():
+            env[key] = (t, term)
+        env["%bound"] = ("meta", ())
+        env["%decl"] = ("meta", frozenset())
+        return self.run(body[1], body[2], env, lambda env2, v: self.final(v, env2), {})
+
+
+# =================================================================================================
+# Second wave (first client: lib/gen/parser_gen.py, the rest of duckscript/src/parser.rs).  Purely additive:
+# P / Fn / parse_fn above are unchanged; the classes below extend them.
+#
+#   P2    parser:   `loop { .. }`, `let (a, b) = e;`, struct literals `T { f: e, g }`, `&mut e` kept apart from `&e`
+#   Fn2   executor: struct-valued locals and `&mut Struct` parameters (fields are separate symbolic values: `s.f = e`,
+#                   `s.f.is_none()`), Option values with PATH REFINEMENT (`if x.is_none() {A} else {B}` becomes
+#                   `match x with None => A | Some v => B[x := Some v]`, so a later `x.unwrap()` needs no panic arm; an
+#                   unwrap / `v[i]` the executor knows nothing about is hoisted into a match with an explicit panic arm),
+#                   `match CALL(..) { Ok(v) => .., Err(e) => return Err(e) }` on callees that return a result type
+#                   (`ires`: IOk / IErr / IPanic, or any other shape given by the configuration), tuple destructuring,
+#                   `Vec::push / append / is_empty`, `loop {}` with explicit fuel, `for x in s.lines()`, and loop bodies
+#                   that take the immutable locals of the enclosing function they use as extra parameters.
+#                   The SHAPE of every generated function (parameters, loop state tuple, extra body parameters) is
+#                   fixed by the configuration and checked against the source: a source that needs another shape
+#                   raises Rs2vError, it never changes the type of a generated definition.
+POISON = "\0unavailable"
+MUTATORS = ("push", "push_str", "clear", "append")
+KEYWORDS = ("if", "match", "loop", "for", "while", "let", "return", "break", "true", "false", "mut", "ref", "in", "else")
+
+
+class P2(P):
+    def unary(self, no_struct):
+        if self.at("op", "&") and self.peek(1) == ("id", "mut"):
+            self.i += 2
+            return ("refmut", self.unary(no_struct))
+        return super().unary(no_struct)
+
+    def stmt(self):
+        if self.at("id", "loop") and self.peek(1) == ("op", "{"):
+            self.i += 1
+            b = self.block()
+            self.opt("op", ";")
+            return ("loop", b)
+        if self.at("id", "while"):
+            raise Rs2vError("while loop")
+        if self.at("id", "let") and (self.peek(1) == ("op", "(")):
+            self.i += 2
+            names = []
+            while not self.at("op", ")"):
+                self.opt("id", "mut")
+                names.append(self.eat("id"))
+                if not self.opt("op", ","):
+                    break
+            self.eat("op", ")")
+            if self.opt("op", ":"):
+                self.skip_type()
+            self.eat("op", "=")
+            e = self.expr()
+            self.eat("op", ";")
+            return ("lettuple", names, e)
+        return super().stmt()
+
+    def atom(self, no_struct):
+        a = self.peek()
+        if a[0] == "id" and not no_struct and a[1] not in KEYWORDS and not a[1].endswith("!"):
+            j = self.i + 1
+            while self.t[j] == ("op", "::") and self.t[j + 1][0] == "id":
+                j += 2
+            last = self.t[j - 1][1]
+            if self.t[j] == ("op", "{") and last[:1].isupper() and (
+                    self.t[j + 1] == ("op", "}") or
+                    (self.t[j + 1][0] == "id" and self.t[j + 2] in (("op", ":"), ("op", ","), ("op", "}")))):
+                path = [self.t[x][1] for x in range(self.i, j, 2)]
+                self.i = j + 1
+                fields = []
+                while not self.at("op", "}"):
+                    fname = self.eat("id")
+                    if self.opt("op", ":"):
+                        fields.append((fname, self.expr()))
+                    else:
+                        fields.append((fname, ("path", [fname])))
+                    if not self.opt("op", ","):
+                        break
+                self.eat("op", "}")
+                return ("struct", path, fields)
+        return super().atom(no_struct)
+
+
+def parse_fn2(src, name):
+    """like parse_fn, with the P2 grammar"""
+    m = re.search(r"(?:pub(?:\([a-z]+\))?\s+)?fn\s+%s\s*\(" % re.escape(name), src)
+    if not m:
+        raise Rs2vError("fn %s not found" % name)
+    p = P2(lex(src[m.start():], stop_after_item=True))
+    n, params, body = p.fn()
+    return params, body
+
+
+def read_statics(src):
+    """`static NAME: char = 'c';` / `static NAME: &str = "..";` at the top level of a file -> {NAME: (Ty, value)}"""
+    out = {}
+    for m in re.finditer(r"^(?:pub(?:\([a-z]+\))?\s+)?(?:static|const)\s+(\w+)\s*:\s*([^=;]+?)\s*=\s*([^;]+);", src, re.M):
+        name, ty, lit = m.group(1), m.group(2).strip(), m.group(3).strip()
+        toks = lex(lit)
+        if len(toks) != 2:
+            continue
+        if ty == "char" and toks[0][0] == "char":
+            out[name] = (Ty.CHAR, toks[0][1])
+        elif ty in ("&str", "&'static str") and toks[0][0] == "str":
+            out[name] = (Ty.STR, toks[0][1])
+    return out
+
+
+def read_struct(src, name):
+    """field names of `pub struct NAME { pub f: T, .. }`, with the information whether NAME::new() is all-None:
+    #[derive(.. Default ..)], every field an Option<..>, and `fn new() -> NAME { Default::default() }`"""
+    m = re.search(r"((?:#\[[^\]]*\]\s*)*)pub\s+struct\s+%s\s*\{(.*?)\n\}" % re.escape(name), src, re.S)
+    if not m:
+        raise Rs2vError("struct %s not found" % name)
+    attrs, body = m.group(1), m.group(2)
+    body = re.sub(r"//[^\n]*", "", body)
+    fields = re.findall(r"(?:pub\s+)?(\w+)\s*:\s*([^,\n]+(?:<[^\n]*>)?)\s*,", body)
+    derive_default = re.search(r"derive\([^)]*\bDefault\b", attrs) is not None
+    all_opt = all(t.strip().startswith("Option<") for _, t in fields)
+    im = re.search(r"impl\s+%s\s*\{(.*?)\n\}" % re.escape(name), src, re.S)
+    new_default = bool(im and re.search(r"fn\s+new\s*\(\s*\)\s*->\s*%s\s*\{\s*Default::default\(\)\s*\}" % re.escape(name),
+                                        im.group(1)))
+    return [f for f, _ in fields], (derive_default and all_opt and new_default)
+
+
+def some_inner(term):
+    """X when term is literally `(Some X)`"""
+    if isinstance(term, str) and term.startswith("(Some ") and term.endswith(")"):
+        inner, d = term[6:-1], 0
+        for ch in inner:
+            if ch == "(":
+                d += 1
+            elif ch == ")":
+                d -= 1
+                if d < 0:
+                    return None
+        return inner if d == 0 else None
+    return None
+
+
+def T_opt(t):
+    return ("option", t)
+
+
+def T_list(t):
+    return ("list", t)
+
+
+def T_tuple(*ts):
+    return ("tuple", list(ts))
+
+
+def T_struct(n):
+    return ("struct", n)
+
+
+def is_struct(t):
+    return isinstance(t, tuple) and t[0] == "struct"
+
+
+RES_SHAPES = {
+    # result type of a callee: constructor of success, pattern / payload of failure, panic constructor (or None)
+    "ires": {"ok": "IOk %s", "err_pat": "IErr e", "err_payload": "e", "panic": "IPanic"},
+    "tres": {"ok": "TOk %s", "err_pat": "TErr e l s", "err_payload": "(e, l, s)", "panic": None},
+}
+
+
+class Fn2(Fn):
+    """cfg keys in addition to / instead of Fn's:
+      params       {rust name: (type, coq term | {field: (type, term)})}
+      locals       {rust name: type}                     declared types of `let mut x = None / vec![] / 1`
+      statics      {NAME: (Ty, python value)}            from read_statics
+      structs      {Name: {"fields": [(f, type)], "coq": coq type, "mk": fmt over the fields, "proj": {f: fmt}, "new_is_none": bool}}
+      fn_params / fn_args                                 binder text / argument text of the loop-body definition
+      loop         {"state": [dotted names], "body_params": [(dotted rust name, coq name)], "fuel": coq term,
+                    "item": (type, coq type)}            shape of the (single) loop
+      step / res   spellings (see parser_gen)
+      helpers      {rust fn path: {"call": f(fn, args, env) -> term, "res": key of RES_SHAPES, "ret": type,
+                                   "ok": f(fn, args, env, var) -> (coq pattern, env2), "err": f(fn, args, env) -> payload,
+                                   "tail": bool}}
+      ctor_handlers {rust path: f(fn, args, env) -> (type, term)},  struct_handlers {rust path: f(fn, fields, env) -> (type, term)}
+      iflet_ctors  {rust path: coq pattern}
+      err_kinds    [names of ScriptError variants that have a model constructor E<name>], is_meta f(fn, e, env) -> bool
+      ok_wrap      f(fn, term, env) -> term               what Ok(x) carries in the model besides x
+    """
+
+    def __init__(self, cfg):
+        super().__init__(cfg)
+        self.fresh_names = set()
+        self._pack = None
+        self._h = 0
+
+    def newvar(self, base):
+        v = super().newvar(re.sub(r"\W", "_", base))
+        self.fresh_names.add(v)
+        return v
+
+    # ---- environment with dotted names (struct fields)
+    def lvalue(self, e):
+        if e[0] == "path" and len(e[1]) == 1:
+            return e[1][0]
+        if e[0] == "field":
+            b = self.lvalue(e[1])
+            return None if b is None else b + "." + e[2]
+        return None
+
+    def has(self, env, dotted):
+        parts = dotted.split(".")
+        if parts[0] not in env:
+            return False
+        v = env[parts[0]]
+        for p in parts[1:]:
+            if not (is_struct(v[0]) and isinstance(v[1], dict) and p in v[1]):
+                return False
+            v = v[1][p]
+        return True
+
+    def get(self, env, dotted):
+        parts = dotted.split(".")
+        if parts[0] not in env:
+            raise Rs2vError("unknown variable %s" % parts[0])
+        v = env[parts[0]]
+        for p in parts[1:]:
+            if not (is_struct(v[0]) and isinstance(v[1], dict) and p in v[1]):
+                raise Rs2vError("no field %s in %s" % (p, dotted))
+            v = v[1][p]
+        return v
+
+    def set(self, env, dotted, val):
+        parts = dotted.split(".")
+        env2 = dict(env)
+        if len(parts) == 1:
+            env2[dotted] = val
+            return env2
+
+        def upd(v, ps):
+            if not ps:
+                return val
+            if not (is_struct(v[0]) and isinstance(v[1], dict) and ps[0] in v[1]):
+                raise Rs2vError("no field %s in %s" % (ps[0], dotted))
+            d = dict(v[1])
+            d[ps[0]] = upd(d[ps[0]], ps[1:])
+            return (v[0], d)
+        if parts[0] not in env:
+            raise Rs2vError("unknown variable %s" % parts[0])
+        env2[parts[0]] = upd(env[parts[0]], parts[1:])
+        return env2
+
+    def struct_term(self, t, fields):
+        """a struct value as one Coq term"""
+        sc = self.cfg.get("structs", {}).get(t[1])
+        if sc and "term" in sc:
+            return sc["term"](self, fields)
+        if not sc or "mk" not in sc:
+            raise Rs2vError("struct %s has no Coq representation here" % t[1])
+        terms = []
+        for f, _ft in sc["fields"]:
+            ft, term = fields[f]
+            terms.append(self.struct_term(ft, term) if isinstance(term, dict) else self.plain(term, f))
+        return sc["mk"] % tuple(terms)
+
+    def struct_of_term(self, t, term):
+        """the symbolic fields of a struct held in the Coq variable `term`"""
+        sc = self.cfg["structs"][t[1]]
+        return (t, {f: (ft, sc["proj"][f] % term) for f, ft in sc["fields"]})
+
+    def plain(self, term, what="value"):
+        if term == POISON or (isinstance(term, str) and POISON in term):
+            raise Rs2vError("%s is not available at this point" % what)
+        return term
+
+    def value(self, e, env):
+        """(type, term | field dict) of an expression that may denote a whole struct"""
+        while e[0] in ("ref", "refmut"):
+            e = e[1]
+        if e[0] == "mcall" and e[2] in ("clone", "to_owned") and not e[3]:
+            return self.value(e[1], env)
+        lv = self.lvalue(e)
+        if lv is not None and self.has(env, lv):
+            return self.get(env, lv)
+        if e[0] == "call" and e[1][0] == "path" and len(e[1][1]) == 2 and e[1][1][1] == "new" and not e[2]:
+            sc = self.cfg.get("structs", {}).get(e[1][1][0])
+            if sc:
+                if not sc.get("new_is_none"):
+                    raise Rs2vError("%s::new() is not known to be all-None" % e[1][1][0])
+                return (T_struct(e[1][1][0]), {f: (ft, "None") for f, ft in sc["fields"]})
+        return (self.type_of(e, env), self.ex(e, env))
+
+    # ---- types
+    def type_of(self, e, env):
+        k = e[0]
+        lv = self.lvalue(e)
+        if lv is not None and self.has(env, lv):
+            return self.get(env, lv)[0]
+        if k == "path":
+            name = "::".join(e[1])
+            if name in self.cfg.get("statics", {}):
+                return self.cfg["statics"][name][0]
+            if name == "None":
+                return None
+            if name in self.cfg.get("ctor_types", {}):
+                return self.cfg["ctor_types"][name]
+        if k in ("ref", "refmut"):
+            return self.type_of(e[1], env)
+        if k == "num":
+            return None
+        if k == "tuple":
+            return T_tuple(*[self.type_of(x, env) for x in e[1]])
+        if k == "struct":
+            name = "::".join(e[1])
+            if name in self.cfg.get("ctor_types", {}):
+                return self.cfg["ctor_types"][name]
+        if k == "call" and e[1][0] == "path":
+            name = "::".join(e[1][1])
+            if name == "Some" and len(e[2]) == 1:
+                return T_opt(self.type_of(e[2][0], env))
+            if name in self.cfg.get("ctor_types", {}):
+                return self.cfg["ctor_types"][name]
+        if k == "index":
+            t = self.type_of(e[1], env)
+            if t in (Ty.STR, "vec"):
+                return Ty.CHAR
+            if isinstance(t, tuple) and t[0] == "list":
+                return t[1]
+            raise Rs2vError("index into %s" % (t,))
+        if k == "mcall":
+            m = e[2]
+            if m == "unwrap":
+                t = self.type_of(e[1], env)
+                if isinstance(t, tuple) and t[0] == "option":
+                    return t[1]
+                raise Rs2vError("unwrap on %s" % (t,))
+            if m in ("trim", "trim_start", "trim_end"):
+                return Ty.STR
+            if m in ("starts_with", "is_some", "is_none", "is_empty"):
+                return Ty.BOOL
+            if m == "len":
+                return Ty.NAT
+            if m in ("to_string", "clone", "to_owned"):
+                t = self.type_of(e[1], env)
+                return Ty.STR if t == Ty.STR_REV else t
+        return super().type_of(e, env)
+
+    # ---- pure expressions
+    def ex(self, e, env):
+        k = e[0]
+        lv = self.lvalue(e)
+        if lv is not None and self.has(env, lv):
+            t, term = self.get(env, lv)
+            if isinstance(term, dict):
+                return self.struct_term(t, term)
+            self.plain(term, lv)
+            if t == Ty.STR_REV:
+                return "(rev %s)" % term
+            return term
+        if k == "path":
+            name = "::".join(e[1])
+            st = self.cfg.get("statics", {}).get(name)
+            if st:
+                return coq_char(st[1]) if st[0] == Ty.CHAR else coq_str_lit(st[1])
+            if name == "None":
+                return "None"
+            h = self.cfg.get("ctor_handlers", {}).get(name)
+            if h:
+                return h(self, [], env)[1]
+        if k == "refmut":
+            return self.ex(e[1], env)
+        if k == "struct":
+            h = self.cfg.get("struct_handlers", {}).get("::".join(e[1]))
+            if not h:
+                raise Rs2vError("struct literal %s" % "::".join(e[1]))
+            return h(self, e[2], env)[1]
+        if k == "call" and e[1][0] == "path":
+            name = "::".join(e[1][1])
+            if name == "Some" and len(e[2]) == 1:
+                return "(Some %s)" % self.ex(e[2][0], env)
+            h = self.cfg.get("ctor_handlers", {}).get(name)
+            if h:
+                return h(self, e[2], env)[1]
+            if name == "String::new" and not e[2]:
+                return "[]"
+        if k == "index":
+            raise Rs2vError("v[i] in a position where it cannot be hoisted")
+        if k == "mcall":
+            recv, m, args = e[1], e[2], e[3]
+            if m in ("is_some", "is_none") and not args:
+                return "(opt_%s %s)" % (m, self.ex(recv, env))
+            if m == "is_empty" and not args:
+                rl = self.lvalue(recv)
+                if rl is not None and self.has(env, rl) and self.get(env, rl)[0] == Ty.STR_REV:
+                    return "(list_is_empty %s)" % self.plain(self.get(env, rl)[1], rl)
+                return "(list_is_empty %s)" % self.ex(recv, env)
+            if m == "unwrap" and not args:
+                inner = some_inner(self.ex(recv, env))
+                if inner is None:
+                    raise Rs2vError("unwrap in a position where it cannot be hoisted")
+                return inner
+            if m == "trim" and not args:
+                return "(trim %s)" % self.ex(recv, env)
+            if m == "starts_with" and len(args) == 1:
+                return "(str_starts_with %s %s)" % (self.ex(args[0], env), self.ex(recv, env))
+            if m == "len" and not args:
+                return "(length %s)" % self.ex(recv, env)
+            if m in ("to_string", "clone", "to_owned") and not args:
+                return self.ex(recv, env)
+        return super().ex(e, env)
+
+    # ---- partial sub-expressions (v[i], x.unwrap()) are bound by an explicit match before the statement that uses them
+    def hoist(self, e, env, ctx, k, hint="x"):
+        pend = []
+
+        def walk(n, guarded):
+            if isinstance(n, list):
+                return [walk(x, guarded) for x in n]
+            if not isinstance(n, tuple) or not n:
+                return n
+            if n[0] in ("if", "iflet", "match", "block", "char", "str", "num", "bool"):
+                return n
+            if n[0] == "path":
+                return n
+            if n[0] == "index":
+                if guarded:
+                    raise Rs2vError("v[i] on the right of a short-circuit operator")
+                sub = ("index", walk(n[1], guarded), walk(n[2], guarded))
+                self._h += 1
+                tmp = "%%h%d" % self._h
+                pend.append((tmp, "index", sub))
+                return ("path", [tmp])
+            if n[0] == "mcall" and n[2] == "unwrap" and not n[3]:
+                recv = walk(n[1], guarded)
+                if guarded:
+                    raise Rs2vError("unwrap on the right of a short-circuit operator")
+                self._h += 1
+                tmp = "%%h%d" % self._h
+                pend.append((tmp, "unwrap", recv))
+                return ("path", [tmp])
+            if n[0] == "bin" and n[1] in ("&&", "||"):
+                return ("bin", n[1], walk(n[2], guarded), walk(n[3], True))
+            if n[0] == "struct":
+                return ("struct", n[1], [(f, walk(x, guarded)) for f, x in n[2]])
+            return tuple(walk(x, guarded) if isinstance(x, (tuple, list)) else x for x in n)
+
+        e2 = walk(e, False)
+
+        def bindall(i, env_):
+            if i == len(pend):
+                return k(e2, env_)
+            tmp, kind, sub = pend[i]
+            env2 = dict(env_)
+            if kind == "index":
+                et = self.type_of(sub, env_)
+                v = self.newvar(hint)
+                env2[tmp] = (et, v)
+                return "match nth_error %s %s with\n| None => %s\n| Some %s =>\n%s\nend" % (
+                    self.ex(sub[1], env_), self.num(sub[2], Ty.NAT, env_), self.panic_term(ctx), v, bindall(i + 1, env2))
+            t = self.type_of(sub, env_)
+            if not (isinstance(t, tuple) and t[0] == "option"):
+                raise Rs2vError("unwrap on %s" % (t,))
+            term = self.ex(sub, env_)
+            inner = some_inner(term)
+            if inner is not None:
+                env2[tmp] = (t[1], inner)
+                return bindall(i + 1, env2)
+            v = self.newvar(hint)
+            env2[tmp] = (t[1], v)
+            return "match %s with\n| None => %s\n| Some %s =>\n%s\nend" % (term, self.panic_term(ctx), v, bindall(i + 1, env2))
+        return bindall(0, env)
+
+    # ---- outcomes
+    def panic_term(self, ctx):
+        p = self.cfg["step"]["panic"] if ctx.get("loop") else self.cfg["res"]["panic"]
+        if not p:
+            raise Rs2vError("a panic is not expressible here")
+        return p
+
+    def fail_term(self, payload, ctx):
+        if ctx.get("loop"):
+            return self.cfg["step"]["fail"] % payload
+        return self.cfg["res"]["err"] % payload
+
+    def err_payload(self, x, env):
+        """the model's error payload for the Rust error expression x"""
+        if x[0] == "path" and len(x[1]) == 1 and x[1][0] in env and env[x[1][0]][0] == "error":
+            return env[x[1][0]][1]
+        if x[0] == "call" and x[1][0] == "path" and len(x[1][1]) == 2 and x[1][1][0] == "ScriptError" and len(x[2]) == 1:
+            kind = x[1][1][1]
+            if kind not in self.cfg.get("err_kinds", ()):
+                raise Rs2vError("error kind %s has no model constructor" % kind)
+            im = self.cfg.get("is_meta")
+            if not im or not im(self, x[2][0], env):
+                raise Rs2vError("error %s does not carry the function's meta_info" % kind)
+            f = self.cfg.get("err_fmt", "%s")
+            return f % ("E" + kind)
+        raise Rs2vError("error value %r" % (x,))
+
+    def result(self, e, env, ctx):
+        """the function's result (`return e` or the tail value) in context ctx"""
+        if e[0] == "call" and e[1][0] == "path":
+            name = "::".join(e[1][1])
+            if name == "Ok" and len(e[2]) == 1:
+                if ctx.get("loop"):
+                    raise Rs2vError("return Ok(..) inside the loop")
+
+                def fin(x2, env2):
+                    term = self.ex(x2, env2)
+                    w = self.cfg.get("ok_wrap")
+                    if w:
+                        term = w(self, term, env2)
+                    return self.cfg["res"]["ok"] % term
+                return self.hoist(e[2][0], env, ctx, fin)
+            if name == "Err" and len(e[2]) == 1:
+                return self.fail_term(self.err_payload(e[2][0], env), ctx)
+            h = self.helper(e[1][1])
+            if h and h.get("tail") and not ctx.get("loop"):
+                return h["call"](self, e[2], env)
+        raise Rs2vError("result value %r" % (e,))
+
+    def ret(self, e, env, ctx):
+        if e is None:
+            raise Rs2vError("return without a value")
+        return self.result(e, env, ctx)
+
+    def final(self, v, env):
+        if v is None:
+            raise Rs2vError("function ends without a value")
+        return self.result(v, env, {})
+
+    def helper(self, path):
+        hs = self.cfg.get("helpers", {})
+        return hs.get("::".join(path)) or hs.get(path[-1])
+
+    # ---- scoping of blocks in statement position
+    def declared(self, node):
+        """names a block declares at its own level (let / let (..))"""
+        out = set()
+        if isinstance(node, tuple) and node and node[0] == "block":
+            for s in node[1]:
+                if s[0] == "let":
+                    out.add(s[1])
+                elif s[0] == "lettuple":
+                    out.update(s[1])
+        return out
+
+    def restrict(self, env3, env, blocks=(), names=()):
+        d = set(names)
+        for b in blocks:
+            if b is not None:
+                d |= self.declared(b)
+        sh = sorted(x for x in d if x in env)
+        if sh:
+            raise Rs2vError("a nested block re-declares %s" % ", ".join(sh))
+        return {x: env3[x] for x in env}
+
+    # ---- statements
+    def stmt(self, s, env, cont, ctx):
+        k = s[0]
+        if k == "lettuple":
+            return self.bind_tuple(s[1], s[2], env, cont, ctx)
+        if k in ("loop", "for"):
+            return self.loop2(s, env, cont, ctx)
+        if k == "break":
+            if not ctx.get("loop"):
+                raise Rs2vError("break outside a loop")
+            return self.cfg["step"]["brk"] % self._pack(env)
+        return super().stmt(s, env, cont, ctx)
+
+    def loop(self, s, env, cont, ctx):
+        return self.loop2(s, env, cont, ctx)
+
+    def bind_tuple(self, names, e, env, cont, ctx):
+        t = self.type_of(e, env)
+        if not (isinstance(t, tuple) and t[0] == "tuple" and len(t[1]) == len(names)):
+            raise Rs2vError("let (%s) = a value of type %s" % (", ".join(names), t))
+        term = self.ex(e, env)
+        env2 = dict(env)
+        vs = []
+        for n, nt in zip(names, t[1]):
+            v = self.newvar(n if n != "_" else "w")
+            vs.append(v)
+            if n != "_":
+                env2[n] = (nt, v)
+        return "match %s with\n| (%s) =>\n%s\nend" % (term, ", ".join(vs), cont(env2))
+
+    def bind(self, name, e, env, cont, ctx):
+        while e[0] == "block" and not e[1] and e[2] is not None:
+            e = e[2]
+        declared_t = self.cfg.get("locals", {}).get(name)
+        if e[0] == "if":
+            t, term = self.pure_cond(e, env)
+            env2 = dict(env)
+            env2[name] = (declared_t or t, term)
+            return cont(env2)
+        if e[0] == "match":
+            def k(env2, v):
+                if v is None:
+                    raise Rs2vError("let %s = match .. without a value" % name)
+                return self.bind(name, v, env2, lambda env3, _v=None: cont(self.keep(env3, env, name)), ctx)
+            return self.match_(e, env, k, ctx)
+        if e[0] == "mcall" and e[2] == "collect" and not e[3] and e[1][0] == "mcall" and e[1][2] == "chars" and not e[1][3]:
+            return self.bind(name, e[1][1], env, cont, ctx)      # let chars: Vec<char> = s.chars().collect();
+        if e[0] == "call" and e[1] == ("path", ["String", "new"]) and not e[2]:
+            env2 = dict(env)
+            env2[name] = (declared_t or Ty.STR, "[]")
+            return cont(env2)
+        if e[0] == "macro" and e[1] == "vec" and not e[2]:
+            if declared_t is None:
+                raise Rs2vError("type of local %s unknown" % name)
+            env2 = dict(env)
+            env2[name] = (declared_t, "[]")
+            return cont(env2)
+
+        def k2(e2, env2):
+            if e2[0] == "num":
+                if declared_t is None:
+                    raise Rs2vError("type of local %s unknown" % name)
+                t, val = declared_t, self.num(e2, declared_t, env2)
+            else:
+                t, val = self.value(e2, env2)
+            if isinstance(val, dict):
+                env3 = dict(env2)
+                env3[name] = (t, val)
+                return cont(env3)
+            t = declared_t or t
+            if t is None:
+                raise Rs2vError("type of local %s unknown" % name)
+            if t == Ty.STR_REV and val != "[]":
+                raise Rs2vError("a reversed string local initialised with a value")
+            env3 = dict(env2)
+            env3[name] = (t, val)
+            return cont(env3)
+        return self.hoist(e, env, ctx, k2, hint=name)
+
+    def keep(self, env3, env, name):
+        out = {x: env3[x] for x in env}
+        out[name] = env3[name]
+        return out
+
+    def pure_cond(self, e, env):
+        if e[0] == "if":
+            a, b = e[2], e[3]
+            if a[1] or a[2] is None or b is None or b[1] or b[2] is None:
+                raise Rs2vError("let x = if .. with statements")
+            c = self.ex(e[1], env)
+            ta, tb = self.type_of(a[2], env), self.type_of(b[2], env)
+            return (ta or tb, "(if %s then %s else %s)" % (c, self.ex(a[2], env), self.ex(b[2], env)))
+        raise Rs2vError("let x = %s .." % e[0])
+
+    def assign(self, s, env, cont, ctx):
+        lhs, op, rhs = s[1], s[2], s[3]
+        lv = self.lvalue(lhs)
+        if lv is None or not self.has(env, lv):
+            raise Rs2vError("assignment to %r" % (lhs,))
+        t, cur = self.get(env, lv)
+        if op == "=" and rhs[0] == "match":
+            def k(env2, v):
+                if v is None:
+                    raise Rs2vError("%s = match .. without a value" % lv)
+                return self.assign(("assign", lhs, "=", v), env2, lambda env3, _v=None: cont(self.restrict(env3, env)), ctx)
+            return self.match_(rhs, env, k, ctx)
+        if op in ("+=", "-=") or (op == "=" and rhs[0] == "bin" and rhs[1] in ("+", "-") and rhs[2] == lhs):
+            amount = rhs if op != "=" else rhs[3]
+            sign = op[0] if op != "=" else rhs[1]
+            if amount != ("num", 1) or isinstance(cur, dict):
+                raise Rs2vError("assignment %s %s %r" % (lv, op, rhs))
+            self.plain(cur, lv)
+            if sign == "+" and t == Ty.NAT:
+                return cont(self.set(env, lv, (t, "(S %s)" % cur)))
+            if sign == "+" and t == Ty.NUM_N:
+                return cont(self.set(env, lv, (t, "(%s + 1)%%N" % cur)))
+            if sign == "-" and t == Ty.NAT:
+                v = self.newvar(lv)
+                return "match usize_dec %s with\n| None => %s\n| Some %s =>\n%s\nend" % (
+                    cur, self.panic_term(ctx), v, cont(self.set(env, lv, (t, v))))
+            raise Rs2vError("assignment %s %s on %s" % (lv, op, t))
+        if op != "=":
+            raise Rs2vError("assignment operator %s" % op)
+
+        def k2(e2, env2):
+            vt, val = (t, self.num(e2, t, env2)) if e2[0] == "num" else self.value(e2, env2)
+            if isinstance(val, dict) != isinstance(cur, dict):
+                raise Rs2vError("assignment of a struct to a non-struct (%s)" % lv)
+            if not isinstance(val, dict):
+                if t == Ty.STR_REV:
+                    raise Rs2vError("assignment to the reversed string %s" % lv)
+            return cont(self.set(env2, lv, (t, val)))
+        return self.hoist(rhs, env, ctx, k2, hint=lv)
+
+    def is_unit_effect(self, e, env):
+        if e[0] == "mcall" and e[2] in MUTATORS:
+            lv = self.lvalue(e[1])
+            return lv is not None and self.has(env, lv)
+        return False
+
+    def effect(self, e, env, cont, ctx):
+        k = e[0]
+        if k == "if":
+            return self.if_(e, env, lambda env2, _v=None: cont(self.restrict(env2, env, (e[2], e[3]))), ctx)
+        if k == "iflet":
+            return self.iflet2(e, env, lambda env2, _v=None: cont(self.restrict(env2, env, (e[3], e[4]), [x for x in e[1][2] if x])),
+                               ctx)
+        if k == "match":
+            names = [x for pat, _b in e[2] if pat[0] == "ctor" for x in pat[2] if x]
+            return self.match_(e, env, lambda env2, _v=None: cont(self.restrict(env2, env, [b for _p, b in e[2]], names)), ctx)
+        if k == "block":
+            return self.run(e[1], e[2], env, lambda env2, _v=None: cont(self.restrict(env2, env, (e,))), ctx)
+        if k == "mcall" and e[2] in MUTATORS:
+            lv = self.lvalue(e[1])
+            if lv is None or not self.has(env, lv):
+                raise Rs2vError("method %s on %r" % (e[2], e[1]))
+            t, cur = self.get(env, lv)
+            m, args = e[2], e[3]
+            if isinstance(cur, dict):
+                raise Rs2vError("method %s on the struct %s" % (m, lv))
+            self.plain(cur, lv)
+
+            def k2(a2, env2):
+                if isinstance(t, tuple) and t[0] == "list":
+                    if m == "push" and len(a2) == 1:
+                        at, av = self.value(a2[0], env2)
+                        a = self.struct_term(at, av) if isinstance(av, dict) else av
+                        return cont(self.set(env2, lv, (t, "(%s ++ [%s])" % (cur, a))))
+                    if m == "append" and len(a2) == 1 and a2[0][0] == "refmut":
+                        src = self.lvalue(a2[0][1])
+                        if src is None or not self.has(env2, src) or self.get(env2, src)[0] != t:
+                            raise Rs2vError("append of %r" % (a2[0],))
+                        env3 = self.set(env2, lv, (t, "(%s ++ %s)" % (cur, self.plain(self.get(env2, src)[1], src))))
+                        return cont(self.set(env3, src, (t, "[]")))
+                    if m == "clear" and not a2:
+                        return cont(self.set(env2, lv, (t, "[]")))
+                if t in (Ty.STR, Ty.STR_REV):
+                    if m == "push" and len(a2) == 1:
+                        a = self.ex(a2[0], env2)
+                        return cont(self.set(env2, lv, (t, "(%s ++ [%s])" % (cur, a) if t == Ty.STR else "(%s :: %s)" % (a, cur))))
+                    if m == "push_str" and len(a2) == 1:
+                        lit = a2[0]
+                        while lit[0] == "ref":
+                            lit = lit[1]
+                        if t == Ty.STR_REV:
+                            a = coq_str_lit(lit[1][::-1]) if lit[0] == "str" else "(rev %s)" % self.ex(lit, env2)
+                            return cont(self.set(env2, lv, (t, "(%s ++ %s)" % (a, cur))))
+                        return cont(self.set(env2, lv, (t, "(%s ++ %s)" % (cur, self.ex(lit, env2)))))
+                    if m == "clear" and not a2:
+                        return cont(self.set(env2, lv, (t, "[]")))
+                raise Rs2vError("method %s.%s on %s" % (lv, m, t))
+            return self.hoist(args, env, ctx, k2, hint="x")
+        raise Rs2vError("effect %r" % (e,))
+
+    def cond(self, e, env, cont, ctx):
+        return self.effect(e, env, cont, ctx)
+
+    def opt_test(self, c, env):
+        """(dotted name, True for is_some) when c is `[!]x.is_some()` / `[!]x.is_none()` on an Option-typed variable / field"""
+        pos = True
+        while c[0] == "not":
+            pos = not pos
+            c = c[1]
+        if c[0] == "mcall" and c[2] in ("is_some", "is_none") and not c[3]:
+            lv = self.lvalue(c[1])
+            if lv is not None and self.has(env, lv):
+                t, term = self.get(env, lv)
+                if isinstance(t, tuple) and t[0] == "option" and not isinstance(term, dict):
+                    return lv, (pos if c[2] == "is_some" else not pos)
+        return None
+
+    def runblk(self, blk, env, k, ctx):
+        if blk is None:
+            return k(env, None)
+        return self.run(blk[1], blk[2], env, k, ctx)
+
+    def if_(self, e, env, k, ctx):
+        c, a, b = e[1], e[2], e[3]
+        ot = self.opt_test(c, env)
+        if ot:
+            lv, positive = ot
+            t, term = self.get(env, lv)
+            self.plain(term, lv)
+            inner = some_inner(term)
+            if inner is not None or term == "None":
+                return self.runblk(a if (inner is not None) == positive else b, env, k, ctx)
+            v = self.newvar(lv)
+            some_blk, none_blk = (a, b) if positive else (b, a)
+            return "match %s with\n| Some %s =>\n%s\n| None =>\n%s\nend" % (
+                term, v, self.runblk(some_blk, self.set(env, lv, (t, "(Some %s)" % v)), k, ctx),
+                self.runblk(none_blk, self.set(env, lv, (t, "None")), k, ctx))
+        return self.hoist(c, env, ctx, lambda c2, env2: "if %s then\n%s\nelse\n%s" % (
+            self.ex(c2, env2), self.runblk(a, env2, k, ctx), self.runblk(b, env2, k, ctx)), hint="x")
+
+    def iflet(self, e, env, cont, ctx):
+        return self.effect(e, env, cont, ctx)
+
+    def iflet2(self, e, env, k, ctx):
+        pat, scrut, blk, els = e[1], e[2], e[3], e[4]
+        if pat[0] != "ctor":
+            raise Rs2vError("if let pattern %r" % (pat,))
+        name = "::".join(pat[1])
+        if name == "Some" and len(pat[2]) == 1:
+            return self.opt_match(scrut, pat[2][0], blk, els, env, k, ctx)
+        cp = self.cfg.get("iflet_ctors", {}).get(name)
+        if cp and all(x is None for x in pat[2]):
+            term = self.ex(scrut, env)
+            return "match %s with\n| %s =>\n%s\n| _ =>\n%s\nend" % (term, cp, self.runblk(blk, env, k, ctx),
+                                                                  self.runblk(els, env, k, ctx))
+        raise Rs2vError("if let pattern %s" % name)
+
+    def opt_match(self, scrut, var, some_blk, none_blk, env, k, ctx):
+        """match scrut { Some(var) => some_blk, None => none_blk } on an Option value, with refinement of a variable"""
+        while scrut[0] in ("ref", "refmut"):
+            scrut = scrut[1]
+        lv = self.lvalue(scrut)
+        t = self.type_of(scrut, env)
+        if not (isinstance(t, tuple) and t[0] == "option"):
+            raise Rs2vError("Some(..) pattern on %s" % (t,))
+        term = self.ex(scrut, env)
+        inner = some_inner(term)
+        if inner is not None:
+            env2 = dict(env)
+            if var:
+                env2[var] = (t[1], inner)
+            return self.runblk(some_blk, env2, k, ctx)
+        if term == "None":
+            return self.runblk(none_blk, env, k, ctx)
+        v = self.newvar(var or "x")
+        refinable = lv is not None and self.has(env, lv)
+        env_s = self.set(env, lv, (t, "(Some %s)" % v)) if refinable else dict(env)
+        if var:
+            env_s[var] = (t[1], v)
+        env_n = self.set(env, lv, (t, "None")) if refinable else env
+        return "match %s with\n| Some %s =>\n%s\n| None =>\n%s\nend" % (
+            term, v, self.runblk(some_blk, env_s, k, ctx), self.runblk(none_blk, env_n, k, ctx))
+
+    def match(self, e, env, cont, ctx):
+        return self.effect(e, env, cont, ctx)
+
+    def arm(self, body, env, k, ctx):
+        if body[0] == "block":
+            return self.run(body[1], body[2], env, k, ctx)
+        return self.tail(body, env, k, ctx)
+
+    def match_(self, e, env, k, ctx):
+        scrut, arms = e[1], e[2]
+        byc = {}
+        for pat, body in arms:
+            if pat[0] != "ctor" or len(pat[1]) != 1 or pat[1][0] in byc:
+                raise Rs2vError("match pattern %r" % (pat,))
+            byc[pat[1][0]] = (pat[2], body)
+        if scrut[0] == "call" and scrut[1][0] == "path":
+            h = self.helper(scrut[1][1])
+            if not h or not h.get("res"):
+                raise Rs2vError("match on a call of %s" % "::".join(scrut[1][1]))
+            if set(byc) != {"Ok", "Err"} or len(byc["Ok"][0]) != 1 or len(byc["Err"][0]) != 1:
+                raise Rs2vError("match arms %s on a Result" % sorted(byc))
+            shape = RES_SHAPES[h["res"]]
+            call = h["call"](self, scrut[2], env)
+            okvar, okbody = byc["Ok"][0][0], byc["Ok"][1]
+            if h.get("ok"):
+                okpat, env_ok = h["ok"](self, scrut[2], env, okvar)
+            else:
+                v = self.newvar(okvar or "r")
+                okpat, env_ok = v, dict(env)
+                if okvar:
+                    env_ok[okvar] = (h["ret"], v)
+            errvar, errbody = byc["Err"][0][0], byc["Err"][1]
+            env_err = dict(env)
+            if errvar:
+                env_err[errvar] = ("error", h["err"](self, scrut[2], env) if h.get("err") else shape["err_payload"])
+            out = ["match %s with" % call,
+                   "| %s =>" % (shape["ok"] % okpat), self.arm(okbody, env_ok, k, ctx),
+                   "| %s =>" % shape["err_pat"], self.arm(errbody, env_err, k, ctx)]
+            if shape["panic"]:
+                out += ["| %s => %s" % (shape["panic"], self.panic_term(ctx))]
+            out.append("end")
+            return "\n".join(out)
+        if set(byc) == {"Some", "None"} and len(byc["Some"][0]) == 1 and not byc["None"][0]:
+            sb, nb = byc["Some"][1], byc["None"][1]
+            wrap = lambda b: b if b[0] == "block" else ("block", [], b)  # noqa: E731
+            return self.opt_match(scrut, byc["Some"][0][0], wrap(sb), wrap(nb), env, k, ctx)
+        raise Rs2vError("match scrutinee %r" % (scrut,))
+
+    def tail(self, e, env, k, ctx):
+        if e[0] == "if":
+            return self.if_(e, env, k, ctx)
+        if e[0] == "match":
+            return self.match_(e, env, k, ctx)
+        if e[0] == "iflet":
+            return self.iflet2(e, env, k, ctx)
+        if e[0] == "block":
+            return self.run(e[1], e[2], env, k, ctx)
+        if self.is_unit_effect(e, env):
+            return self.effect(e, env, lambda env2, _v=None: k(env2, None), ctx)
+        return k(env, e)
+
+    # ---- the loop
+    def assigned_names(self, node):
+        out = set()
+
+        def walk(n):
+            if isinstance(n, list):
+                for x in n:
+                    walk(x)
+                return
+            if not isinstance(n, tuple) or not n:
+                return
+            if n[0] == "assign":
+                lv = self.lvalue(n[1])
+                out.add(lv if lv is not None else "?")
+            elif n[0] == "mcall" and n[2] in MUTATORS:
+                lv = self.lvalue(n[1])
+                out.add(lv if lv is not None else "?")
+            elif n[0] == "refmut":
+                lv = self.lvalue(n[1])
+                out.add(lv if lv is not None else "?")
+            for x in n:
+                if isinstance(x, (tuple, list)):
+                    walk(x)
+        walk(node)
+        return out
+
+    def is_closed(self, term):
+        return not (set(re.findall(r"[A-Za-z_][A-Za-z0-9_']*", term)) & self.fresh_names)
+
+    def loop2(self, s, env, cont, ctx):
+        if ctx.get("loop"):
+            raise Rs2vError("nested loop")
+        if self.loops:
+            raise Rs2vError("more than one loop")
+        lc = self.cfg.get("loop")
+        if not lc:
+            raise Rs2vError("a loop, but no loop is configured for this function")
+        if s[0] == "loop":
+            pat, it, body = None, None, s[1]
+        else:
+            pat, it, body = s[1], s[2], s[3]
+        state = lc["state"]
+        for n in state:
+            if not self.has(env, n) or isinstance(self.get(env, n)[1], dict):
+                raise Rs2vError("loop state variable %s is not in scope" % n)
+        for a in sorted(self.assigned_names(body)):
+            root = a.split(".")[0]
+            if a == "?":
+                raise Rs2vError("the loop assigns to something that is not a variable")
+            if root in env and not any(a == n or a.startswith(n + ".") for n in state):
+                raise Rs2vError("the loop assigns %s, which is not part of the configured state (%s)" % (a, ", ".join(state)))
+        bparams = lc.get("body_params", [])
+        bp = dict(bparams)
+
+        def close(dotted, tv):
+            t, term = tv
+            if isinstance(term, dict):
+                return (t, {f: close(dotted + "." + f, x) for f, x in term.items()})
+            if dotted in bp:
+                return (t, bp[dotted])
+            return (t, term if (term != POISON and self.is_closed(term)) else POISON)
+        benv = {n: close(n, tv) for n, tv in env.items()}
+        svars = []
+        for n in state:
+            v = self.newvar(n)
+            svars.append(v)
+            benv = self.set(benv, n, (self.get(env, n)[0], v))
+        name = "%s_body" % self.cfg["coq_name"]
+        call = "(%s%s%s)" % (name, (" " + self.cfg["fn_args"]) if self.cfg.get("fn_args") else "",
+                             "".join(" " + self.plain(self.ex(self.field_path(n), env), n) for n, _c in bparams))
+
+        def pack(env_):
+            ts = [self.plain(self.get(env_, n)[1], n) for n in state]
+            return ts[0] if len(ts) == 1 else "(" + ", ".join(ts) + ")"
+        init = pack(env)
+        item_decl = ""
+        if s[0] == "loop":
+            if not lc.get("fuel"):
+                raise Rs2vError("`loop` without a configured fuel expression")
+            drive = "loop_fuel %s %s %s" % (call, lc["fuel"], init)
+        elif it[0] == "bin" and it[1] == "..":
+            if pat in self.used_names(body):
+                raise Rs2vError("range loop variable is used")
+            drive = "for_n %s (%s - %s)%%nat %s" % (call, self.ex(it[3], env), self.ex(it[2], env), init)
+        elif it[0] == "mcall" and it[2] == "lines" and not it[3] and lc.get("item"):
+            item = self.newvar(pat)
+            benv[pat] = (lc["item"][0], item)
+            item_decl = " (%s : %s)" % (item, lc["item"][1])
+            drive = "%s %s (lines %s) %s" % (lc.get("for_each", "for_each_x"), call, self.ex(it[1], env), init)
+        else:
+            raise Rs2vError("loop iterator %r" % (it,))
+        stp = self.cfg["step"]
+        self._pack = pack
+        body_term = self.run(body[1], body[2], benv, lambda env2, v=None: stp["cont"] % pack(env2), {"loop": True})
+        self._pack = None
+        if POISON in body_term:
+            raise Rs2vError("the loop body uses a local of the enclosing function that is not one of its parameters")
+        spat = svars[0] if len(svars) == 1 else "(" + ", ".join(svars) + ")"
+        self.loops.append((name, "Definition %s%s%s (st : %s)%s : %s :=\nmatch st with\n| %s =>\n%s\nend.\n" % (
+            name, (" " + self.cfg["fn_params"]) if self.cfg.get("fn_params") else "",
+            "".join(" (%s : %s)" % (c, lc["body_param_types"][c]) for _n, c in bparams),
+            lc["state_type"], item_decl, stp["type"], spat, body_term)))
+        avars = [self.newvar(n) for n in state]
+        env_after = env
+        for n, v in zip(state, avars):
+            env_after = self.set(env_after, n, (self.get(env, n)[0], v))
+        apat = avars[0] if len(avars) == 1 else "(" + ", ".join(avars) + ")"
+        return self.cfg["res"]["consume"] % {"drive": drive, "pat": apat, "after": cont(env_after)}
+
+    def field_path(self, dotted):
+        parts = dotted.split(".")
+        e = ("path", [parts[0]])
+        for p in parts[1:]:
+            e = ("field", e, p)
+        return e
+
+    # ---- whole function
+    def function(self, params, body):
+        env = {}
+        for pn, _ in params:
+            if pn in self.cfg["params"]:
+                env[pn] = self.cfg["params"][pn]
+        return self.run(body[1], body[2], env, lambda env2, v: self.final(v, env2), {})
